@@ -401,6 +401,14 @@ func genSignCases(r *RNG, thorough bool) []string {
 			a[i] = alt(a[i])
 			one(render(bm.kind, a))
 		}
+		// an address spelled in upper case (bech32 admits both spellings; the message bytes differ)
+		for i := range bm.args {
+			if bm.args[i] == A || bm.args[i] == B {
+				a := append([]string{}, bm.args...)
+				a[i] = strings.ToUpper(a[i])
+				one(render(bm.kind, a))
+			}
+		}
 		// two same-typed neighbours exchanged
 		for i := 0; i+1 < len(bm.args); i++ {
 			if bm.args[i] != bm.args[i+1] && bm.args[i] != "" && bm.args[i+1] != "" && (len(bm.args[i]) > 20) == (len(bm.args[i+1]) > 20) {
